@@ -712,7 +712,10 @@ class Remoter(tyming.Tymee):
         """
         Restart tymer from now so it measures tyme since last activity
         """
-        self.tymer.start()
+        if self.tymth is not None:
+            self.tymer.start()
+        else:  # not wound so there is no current tyme to start from
+            self.tymer.restart()
 
 
     def receive(self):
